@@ -30,11 +30,13 @@ artifacts deep inside other roots' trees, kept when a rival with a subtree is di
 padded and CDATA values, children in any order, relativePath, name/description/licenses/scm/properties/build-with-plugin-dependencies/repositories/modules, empty \
 <dependencies/> and <dependencyManagement/> elements). Universes in which an imported BOM and an inherited managed entry disagree are classified, not judged. \
 Separate streams violate each hypothesis (imports before managed entries, child re-declaring a parent's dependency, missing POMs/versions, \
-non-pom parents, undeserialisable XML, cyclic universes under a download budget) and are compared with the model only. \
+non-pom parents, undeserialisable XML, cyclic universes under a download budget) and are compared with the model only; the cyclic streams run last, in a child process of the harness (a change that lets the crate recurse without downloading would otherwise kill the process together with the verdicts on the universes inside the quantifier). \
 Exhaustive 5x5(+5 omitted) scope-table universes. \
 Stream fill-in-matrix: every subset of {version, scope, optional} declared on a dependency x (no managed entry | an entry in the POM's own dependencyManagement, its parent's, or an imported BOM, \
 fixing the version and every subset of {scope, optional}) x two value sets (+ a typed dependency whose classifier is the type's default on one side and explicit on the other), judged field by field \
-(declared, else managed, else default) and by the reference resolver. Stream cyclic-fixed: dependency / parent / import cycles of length 1..3 (stopped by the download budget; compared with the model, which has no answer for any fuel) \
+(declared, else managed, else default) and by the reference resolver. Stream managed-twice: one artifact managed twice with different values (version / scope / optional / all; the first entry fixing fewer fields than the second) in every pair of sources of the effective management \
+(own before parent's, own before an imported BOM's, first import before the second, parent's before grandparent's, a BOM's own before its parent's, a parent's own before the BOM it imports, nested imports), the dependency the POM's own or inherited: the first entry supplies all three fields as a whole. \
+Stream loser-first: two or three versions of one artifact with different dependency sets / repositories / parents, the losing version reached first depth-first; two versions of one parent POM and of one BOM used by different dependencies. Stream repo-order: what the first and the second repository hold for one artifact (nothing / a usable POM / another usable POM / modelVersion 4.1.0 / broken XML) x where it is needed (root, dependency, parent, imported BOM): the first repository holding any document decides, an unusable document is an error and never falls through. Stream cyclic-fixed: dependency / parent / import cycles of length 1..3 (stopped by the download budget; compared with the model, which has no answer for any fuel) \
 and cycles that close only through a cut edge (must resolve). Stream edge-cases: no repositories, no roots, duplicate roots, roots that are dependencies of other roots, serving repository last. \
 Artifact names with non-ASCII and non-BMP letters, versions with empty build numbers, empty prefixes, full-width and Arabic-Indic digits in the snapshot time stamp, packagings outside the handler table. \
 Every universe is written as a crumb before get_maven_dependencies is called (a crash, stack overflow or endless loop is reported with it). Forest::breadth_first_retain/breadth_first on random forests of integers with three stateful \
@@ -50,7 +52,9 @@ A resolve case is non-trivial when the result has at least 2 dependencies; disti
 	resolve::cut_cases(&mut r)?;
 	resolve::type_pair_cases(&mut r)?;
 	resolve::fill_in_cases(&mut r)?;
-	resolve::cyclic_cases(&mut r)?;
+	resolve::managed_twice_cases(&mut r)?;
+	resolve::loser_first_cases(&mut r)?;
+	resolve::repo_order_cases(&mut r)?;
 	resolve::edge_cases(&mut r)?;
 	resolve::mediation_cases(&mut r, &mut rng.fork(4), if ctx.thorough { 3000 } else { 300 })?;
 	r.notes.push(format!("stack of the harness thread: {} MiB (deep async recursion of the crate on cyclic universes, stopped by a download budget of 400)", STACK_MIB.load(std::sync::atomic::Ordering::SeqCst)));
@@ -58,6 +62,8 @@ A resolve case is non-trivial when the result has at least 2 dependencies; disti
 	trees::cases(&mut r, &mut rng.fork(2), n_tree);
 	let n_coord = if ctx.thorough { 4000 } else { 700 };
 	coords::cases(&mut r, &mut rng.fork(3), n_coord);
+	// the cyclic streams last, in a process of their own: whatever they do to that process, the streams above have been judged
+	cyclic_in_child(ctx, &mut r, n_resolve / 20)?;
 	// coqc spends far more time reading a resolve case than evaluating it: deal the cases round-robin
 	// into shards of equal size (at least 16, at most ~400 cases each: a coqc process needs about 0.5 MB of
 	// memory per case) so that the shards take equally long
@@ -70,6 +76,73 @@ A resolve case is non-trivial when the result has at least 2 dependencies; disti
 	Ok(r)
 }
 
+/// The cyclic universes (streams cyclic-fixed and cyclic) are outside the property's quantifier, and the crate walks them with no
+/// limiter of its own: normally every step downloads a document and the Downloader's budget ends the walk with an error.  A change
+/// that lets the crate recurse WITHOUT downloading (a cache of POMs, say) turns that into a stack overflow which kills the process —
+/// and with it every verdict on the universes INSIDE the quantifier.  So these streams run in a child process (this binary with
+/// C19_CYCLIC_CHILD set) after everything else; the child hands back its cases and counts; if it dies, the universe it was working
+/// on (its crumb) is reported as a violation that comes after the ones found inside the quantifier.
+fn cyclic_in_child(ctx: &Ctx, r: &mut Report, n: usize) -> anyhow::Result<()> {
+	use std::io::Read;
+	let out_file = ctx.out.join("cyclic_child.json");
+	let crumb_file = ctx.out.join("cyclic_child_input.txt");
+	let _ = std::fs::remove_file(&out_file); let _ = std::fs::remove_file(&crumb_file);
+	let mut child = std::process::Command::new(std::env::current_exe()?)
+		.arg(ctx.seed.to_string()).arg(if ctx.thorough { "thorough" } else { "quick" }).arg(&ctx.out)
+		.env("C19_CYCLIC_CHILD", n.to_string()).env("C19_CYCLIC_OUT", &out_file).env("FBH_CRUMB", &crumb_file)
+		.stdout(std::process::Stdio::null()).spawn()?;
+	let started = std::time::Instant::now();
+	let limit = std::time::Duration::from_secs(if ctx.thorough { 900 } else { 300 });
+	let status = loop {
+		if let Some(st) = child.try_wait()? { break Some(st); }
+		if started.elapsed() > limit { let _ = child.kill(); let _ = child.wait(); break None; }
+		std::thread::sleep(std::time::Duration::from_millis(50));
+	};
+	let mut text = String::new();
+	if let Ok(mut f) = std::fs::File::open(&out_file) { let _ = f.read_to_string(&mut text); }
+	let parsed: Option<serde_json::Value> = serde_json::from_str(&text).ok();
+	match (status.map_or(false, |s| s.success()), parsed) {
+		(true, Some(j)) => {
+			for st in j["streams"].as_array().cloned().unwrap_or_default() {
+				let stream = st["stream"].as_str().unwrap_or("cyclic").to_string();
+				for c in st["cases"].as_array().cloned().unwrap_or_default() { if let Some(c) = c.as_str() { r.case(&stream, c.to_string()); } }
+				if let Some(d) = st["dist"].as_object() { for (k, v) in d { if !k.starts_with("stream:") { r.count_n(k, v.as_u64().unwrap_or(0)); } } }
+				let ev = st["evaluations"].as_u64().unwrap_or(0);
+				r.evaluations += ev; r.enumerated += ev; r.nontrivial += st["nontrivial"].as_u64().unwrap_or(0);
+				for v in st["violations"].as_array().cloned().unwrap_or_default() { r.violation(v["what"].as_str().unwrap_or("").to_string(), v["replay"].as_str().unwrap_or("").to_string()); }
+				for n in st["notes"].as_array().cloned().unwrap_or_default() { if let Some(n) = n.as_str() { if !r.notes.iter().any(|x| x == n) { r.notes.push(n.to_string()); } } }
+			}
+			r.count("cyclic_child_process_ok");
+		}
+		(_, _) => {
+			let crumb = std::fs::read_to_string(&crumb_file).unwrap_or_default();
+			let how = match status { None => "did not finish within its time limit and was killed".to_string(), Some(s) => format!("ended with {s}") };
+			r.count("cyclic_child_process_died");
+			r.violation(format!("the child process running the CYCLIC universes {how} (crash, stack overflow, abort or endless loop in get_maven_dependencies; cyclic universes are outside the property's quantifier — the verdicts on the universes inside it are the violations listed before this one, if any)"),
+				if crumb.trim().is_empty() { "property C19 (cyclic streams, child process): no input recorded\n".to_string() } else { crumb });
+		}
+	}
+	let _ = std::fs::remove_file(&out_file); let _ = std::fs::remove_file(&crumb_file);
+	Ok(())
+}
+
+/// the child's side: the two cyclic streams, each into a report of its own, handed back as JSON
+fn cyclic_child_main() -> anyhow::Result<()> {
+	let args: Vec<String> = std::env::args().collect();
+	let seed: u64 = args.get(1).map_or(Ok(1), |x| x.parse())?;
+	let n: usize = std::env::var("C19_CYCLIC_CHILD").ok().and_then(|x| x.parse().ok()).unwrap_or(0);
+	std::panic::set_hook(Box::new(|_| {}));
+	let mut streams = vec![];
+	for which in 0..2 {
+		let mut r = Report::new("C19", "C19.Run");
+		if which == 0 { resolve::cyclic_cases(&mut r)?; } else { resolve::cyclic_generated_cases(&mut r, &mut Rng::new(seed).fork(5), n)?; }
+		streams.push(serde_json::json!({ "stream": if which == 0 { "cyclic-fixed" } else { "cyclic" }, "cases": r.cases, "dist": r.dist, "evaluations": r.evaluations, "nontrivial": r.nontrivial,
+			"violations": r.violations.iter().map(|v| serde_json::json!({ "what": v.what, "replay": v.replay })).collect::<Vec<_>>(), "notes": r.notes }));
+	}
+	if let Some(p) = std::env::var_os("C19_CYCLIC_OUT") { std::fs::write(p, serde_json::to_string(&serde_json::json!({ "streams": streams }))?)?; }
+	Ok(())
+}
+
 static STACK_MIB: std::sync::atomic::AtomicUsize = std::sync::atomic::AtomicUsize::new(0);
 
 fn main() -> anyhow::Result<()> {
@@ -77,11 +150,12 @@ fn main() -> anyhow::Result<()> {
 	// reserve the large stack gets a smaller one (recorded in the evidence) instead of a harness error
 	for mib in [1024usize, 512, 256, 128] {
 		STACK_MIB.store(mib, std::sync::atomic::Ordering::SeqCst);
-		match std::thread::Builder::new().stack_size(mib << 20).spawn(|| fbh::main_with(run)) {
+		let child = std::env::var_os("C19_CYCLIC_CHILD").is_some();
+		match std::thread::Builder::new().stack_size(mib << 20).spawn(move || if child { cyclic_child_main() } else { fbh::main_with(run) }) {
 			Ok(h) => return match h.join() { Ok(x) => x, Err(_) => anyhow::bail!("harness thread panicked") },
 			Err(_) => continue,
 		}
 	}
 	STACK_MIB.store(0, std::sync::atomic::Ordering::SeqCst);
-	fbh::main_with(run)
+	if std::env::var_os("C19_CYCLIC_CHILD").is_some() { cyclic_child_main() } else { fbh::main_with(run) }
 }
